@@ -389,6 +389,31 @@ def _task_c(args):
                                          "case": {"part": "c", "head": hname, "victim": vname, "j": j, "how": how, "cuts": list(cuts), "seed": seed}})
                         elif sample is None:
                             sample = {"part": "c", "connection0": f"{hname}: {j} bytes of a packet, then {how}", "delivered_on_connection1": len(exp_tail)}
+    # whole packets with the end of the stream right behind them (same loop iteration): nothing of what was sent may be lost
+    for names in (["P1"], ["P1", "P2"], ["P1", "N21", "P2", "S1"], ["P1", "P2", "P3", "P4", "S1", "P1", "P2", "P3"]):
+        data = b"".join(its[n] for n in names)
+        exp_head = [view_of(dec, its[n]) for n in names if n in VALID]
+        for cuts0 in ((), (len(data) // 2,), tuple(range(7, len(data), 7))):
+            def feed_and_eof(sess, chunks=split(data, cuts0)):
+                c = sess.gw.live_conn()
+                if c is None:
+                    return False
+                for ch in chunks:
+                    sess.env(c.transport.env_feed, ch)
+                sess.env(c.transport.env_eof)
+                c.eof_sent = True
+                return True
+            s = vloop.Session(kind=KIND, script=[it_connect, feed_and_eof])
+            s.pending_log = []
+            o = s.run()
+            runs += 1
+            got = [v for _, v in o.received]
+            outcomes.add(len(got))
+            if o.end_reason != "quiescent" or got != exp_head:
+                vios.append({"kind": "packet_lost" if len(got) < len(exp_head) else "unexpected_delivery", "facts": {"part": "c", "mechanism": "eof_right_behind_data"},
+                             "signature": f"c:eofbehind:{len(names)}",
+                             "detail": f"[{names} in {len(cuts0) + 1} read(s), end of stream right behind] delivered sids {[g[7][0][4] for g in got]}, sent {[e[7][0][4] for e in exp_head]} ({o.end_reason})",
+                             "case": {"part": "c", "eof_behind": names, "cuts": list(cuts0), "seed": seed}})
     return {"runs": runs, "nontrivial": runs, "outcomes": len(outcomes), "vios": vios[:40], "sample": sample, "streams": len(heads) * len(victims) * 19}
 
 
@@ -476,7 +501,9 @@ def replay(ctx, rep):
         return [{"kind": k, "facts": f, "detail": d, "case": c} for k, f, d in judge(seq, its, s, o, make_plan(seq, its))]
     if c["part"] == "c":
         r = _task_c((c.get("seed", 0),))
-        return [v for v in r["vios"] if all(v["case"][k] == c[k] for k in ("head", "victim", "j", "how", "cuts"))][:1] or r["vios"][:1]
+        if "eof_behind" in c:
+            return [v for v in r["vios"] if v["case"].get("eof_behind") == c["eof_behind"] and v["case"]["cuts"] == c["cuts"]][:1]
+        return [v for v in r["vios"] if all(v["case"].get(k) == c[k] for k in ("head", "victim", "j", "how", "cuts"))][:1] or r["vios"][:1]
     alpha = chunk_alphabet()
     s, o = run_stream([alpha[n] for n in c["chunks"]])
     pend = max(s.pending_log) if s.pending_log else 0
